@@ -5,9 +5,11 @@ package main
 // record of the scenario's swap without the anchor, forgets the steps recorded so far (the observed scenario then
 // starts from that record) and restarts the node. Such a swap must never get an anchor later and never pays.
 
+import "github.com/elementsproject/peerswap/swap"
+
 func init() {
 	registerStepKind(func(sc *Scen, name string) bool {
-		if name != "legacy_restart" {
+		if name != "legacy_restart" && name != "legacy_restart_pay" {
 			return false
 		}
 		if sc.id == nil {
@@ -19,6 +21,16 @@ func init() {
 		}
 		m.Data.StartingBlockHeight = 0
 		m.Data.StartingBlockHeightSet = false
+		if name == "legacy_restart_pay" {
+			// ... and the old release had stopped in the state that pays the claim invoice
+			st := swap.State_SwapOutSender_ValidateTxAndPayClaimInvoice
+			if sc.role == "in_receiver" {
+				st = swap.State_SwapInReceiver_ValidateTxAndPayClaimInvoice
+			}
+			m.Previous = m.Current
+			m.Current = st
+			m.Data.SetState(st)
+		}
 		if err := sc.node.store.inner.UpdateData(m); err != nil {
 			return true
 		}
@@ -31,5 +43,8 @@ func init() {
 		directed{"in_receiver", "lbtc", []string{"request", "legacy_restart", "otb", "tx_confirmed"}},
 		directed{"out_sender", "lbtc", []string{"start", "out_agreement", "otb", "legacy_restart", "tx_confirmed"}},
 		directed{"in_receiver", "lbtc", []string{"request", "otb", "legacy_restart", "tx_confirmed", "restart"}},
+		directed{"out_sender", "lbtc", []string{"start", "out_agreement", "otb", "legacy_restart_pay"}},
+		directed{"in_receiver", "lbtc", []string{"request", "otb", "legacy_restart_pay", "restart"}},
+		directed{"out_sender", "btc", []string{"start", "out_agreement", "otb", "legacy_restart_pay"}},
 	)
 }
